@@ -46,6 +46,16 @@ static CaseFn mk_c17(const Args &a) {
         dispatch(ctx, g);
     };
 }
+static CaseFn mk_c04(const Args &a) {
+    int steps = steps_for(a, 30, 100);
+    return [=](Ctx &ctx) {
+        EngCfg g; g.chk_model = true; g.chk_props = true; g.allow_props = true; g.w_prop = 3; g.steps = steps;
+        g.allow_status_gc = true; g.w_misc = 10; g.w_del = 12; g.w_swap = 2; g.allow_clear = false; g.allow_set = false;
+        g.init_mode = (ctx.case_no % 4 == 3) ? (int)(ctx.case_no / 4 % 4) : (1 | (int)((ctx.case_no & 1) << 1));   // mostly deferred, fast on/off
+        dispatch(ctx, g);
+    };
+}
+VF_REGISTER("C04", mk_c04);
 VF_REGISTER("C01", mk_c01);
 VF_REGISTER("C02", mk_c02);
 VF_REGISTER("C03", mk_c03);
